@@ -2,7 +2,8 @@
 import sys
 import sympy
 
-from .. import facts, ev, nf, shapes
+from fractions import Fraction
+from .. import facts, ev, nf, shapes, errdom
 from ..facts import short, strip_cvref
 from ..frontend import NUMERIC, VERIF
 
@@ -29,10 +30,13 @@ def run(chk):
     chk.level = "other"
     chk.technique = ("each definitional constructor/member located by its parameter *types*, evaluated to terms, normalised with sympy "
                      "(positive symbols, exact rationals, radicals) and compared with the textbook formula from oracle/formulas.py")
+    chk.rule("R2", "where the formula as written contains no subtraction of rounded quantities, an a-priori forward error bound (standard model, first order) holds for all positive inputs: <= 16 ulps")
     chk.rule("R1", "the implementing function exists for each numeric type and its algebraic normal form equals the textbook formula, constants included")
-    chk.assumptions += ["few-ulp accuracy of the evaluated formula is NOT decided (only which real function is computed)",
+    chk.assumptions += ["few-ulp accuracy is decided only by R2's a-priori bound where no cancellation can occur; formulas with a subtraction of rounded intermediates (listed in coverage) are NOT decided",
                         "inputs positive (square roots are taken of positive quantities)"]
     n = 0
+    undecided = []
+    worst_all = {}
     for T in NUMERIC:
         F = facts.load(T, chk.tier)
         for entry in FM.FORMULAS:
@@ -81,6 +85,24 @@ def run(chk):
                         bad = ("computes %s, the definition is %s" % (sympy.simplify(got), sympy.simplify(want)), (got, want))
                 if bad is None:
                     chk.holds("R1", "%s | %s" % (name, sig), "= %s" % (str(sympy.simplify(want))[:120] if not isinstance(want, sympy.MatrixBase) else "tensor formula"), loc)
+                    # R2: a-priori forward error bound of the evaluation as written (all positive inputs)
+                    val = E.load(this_lv) if kind == "ctor" else E.rv(res)
+                    signs = {n: ("+" if shapes.shape_of_type(F, (info.get("qtype") or T)) == "scalar" else "?") for n, info in E.leaf_info.items()}
+                    worst, undec = Fraction(0), 0
+                    for _, term in ev.flatten(val):
+                        b, _s = errdom.err(term, T, signs)
+                        if b is None:
+                            undec += 1
+                        else:
+                            worst = max(worst, b)
+                    inst2 = "%s | %s" % (name, sig)
+                    if undec:
+                        undecided.append(inst2)
+                    elif worst > 16:
+                        chk.violated("R2", inst2, "a-priori forward error bound %s u exceeds 16 ulps: the formula as written loses accuracy for all inputs" % float(worst), loc)
+                    else:
+                        chk.holds("R2", inst2, "relative error <= %.1f u (<= %.1f ulp) for all positive inputs" % (float(worst), float(worst)), loc)
+                        worst_all[T] = max(worst_all.get(T, 0.0), float(worst))
                 else:
                     w = nf.witness(bad[1][0], bad[1][1]) if bad[1] else None
                     chk.violated("R1", "%s | %s" % (name, sig), bad[0] + ("; e.g. at %s" % w if w else ""), loc, witness=w)
@@ -88,3 +110,6 @@ def run(chk):
                 chk.inconclusive("R1", "%s | %s" % (name, sig), str(x), loc)
     chk.floor("formula instances (x3 numeric types)", n, 3 * len(FM.FORMULAS) - 3)
     chk.coverage["formulas"] = len(FM.FORMULAS)
+    chk.coverage["forward_error_bound_max_u"] = worst_all
+    chk.coverage["forward_error_undecided_cancellation"] = len(undecided)
+    chk.coverage["forward_error_undecided_examples"] = undecided[:12]
